@@ -21,8 +21,8 @@ PROPERTY = "C04"
 LEVEL = "exploration"
 RULE = (
     "Histories as in C01 (1-3 stages) whose last build succeeds, then a no-change restart with "
-    "a drawn njob/schedule, then an edit of 1-3 source files (content change, or add/delete) and "
-    "a rebuild. Oracle (i): no command starts, the report says 'Ran 0 job(s)', every output "
+    "a drawn njob/schedule, then an edit of 1-3 source files (content change, add/delete, or a "
+    "rewrite with identical content, which justifies nothing) and a rebuild. Oracle (i): no command starts, the report says 'Ran 0 job(s)', every output "
     "keeps inode, mtime and content, the graph text and all tables are unchanged. Oracle (ii): "
     "every executed command is in the closure stated by the property, computed from the tables "
     "before and after the rebuild. Non-trivial = the preceding history detached or recycled a "
@@ -43,7 +43,11 @@ def _cases(draw):
     nedit = draw(st.integers(1, 3))
     edits = []
     for _ in range(nedit):
-        kind = draw(st.sampled_from(["change", "change", "change", "add", "delete"]))
+        kind = draw(st.sampled_from(["change", "change", "change", "add", "delete", "touch"]))
+        if kind == "touch" and sources:
+            # rewritten with the same content: new mtime (and inode), same digest
+            edits.append(["touch", draw(st.sampled_from(sources))])
+            continue
         if kind == "change" and sources:
             edits.append(["change", draw(st.sampled_from(sources)), draw(st.integers(5, 9))])
         elif kind == "add":
@@ -127,6 +131,16 @@ async def check_case(case, rec, ctx):
         # Only the data files change on disk: scripts are rendered from the *old* spec so that
         # this really is "editing source files only".
         _apply_source_edits(spec, new_spec)
+        for e in case["edits"]:
+            if e[0] == "touch" and e[1] in new_spec["sources"] and e[1] not in edited \
+                    and os.path.isfile(e[1]):
+                with open(e[1]) as fh:
+                    content = fh.read()
+                os.remove(e[1])
+                with open(e[1], "w") as fh:
+                    fh.write(content)
+                os.utime(e[1], ns=(2_000_000_000_000_000_000, 2_000_000_000_000_000_000))
+                rec.event("edit:touch-only")
         before_tables = noop.result.tables
         from harness.sim import run_build
 
